@@ -15,6 +15,8 @@
   keeps the case analysis of the source (sign match, `cmp`, `checked_uabs`, digit-count match,
   `to_T`), every panic site is an explicit `.error`.  The val/ref permutations and the
   capacity-driven operand choice of the forwarding macros do not exist at this level.
+  NB.Model.ScalarD re-states the `+ - * / %` leaves on digit vectors through the digit-level operator
+  models; NB.Props.C10D proves them equal to the definitions of this file (refinement).
 
   Target configuration: 64-bit digits (`B = 2^64`), `usize/isize` 64 bits wide,
   `UsizePromotion = u64`, `IsizePromotion = i64` (src/lib.rs, `cfg(target_pointer_width = "64")`).
